@@ -8,12 +8,21 @@ namespace BufModel.Digest
 open BufModel.Path BufModel.Manifest
 
 /-- The invariant of a real bucket: a path → bytes map whose paths are validated
-    (`storageutil.ValidatePath` on every entry point); exactly what `NewFileNode` re-checks. -/
+    (`storageutil.ValidatePath` on every entry point): non-empty, valid, normalized — the checks
+    `NewFileNode` re-does, EXCEPT the line-feed check added by the fix (a bucket may well hold a
+    file whose name contains U+000A; `NewFileNode` then refuses it). -/
 def BucketOK (b : Bucket) : Prop :=
-  (b.map (·.1)).Nodup ∧ ∀ e ∈ b, validateNodePath e.1 = .ok ()
+  (b.map (·.1)).Nodup ∧ ∀ e ∈ b, validateNodePathOld e.1 = .ok ()
 
-/-- …and no path contains a line feed (the manifest format cannot represent one). -/
+/-- No path contains a line feed (the manifest format cannot represent one).  Since the fix this
+    is no longer a hypothesis of the sensitivity theorems: it FOLLOWS from the digest
+    computation having succeeded (`moduleB5_ok_noNewline`). -/
 def NoNewline (b : Bucket) : Prop := ∀ e ∈ b, '\n' ∉ e.1
+
+/-- On a real bucket without line feeds every path passes the repaired `NewFileNode`. -/
+theorem nodePaths_ok {b : Bucket} (h : ∀ e ∈ b, validateNodePathOld e.1 = .ok ()) (hn : NoNewline b) :
+    ∀ e ∈ b, validateNodePath e.1 = .ok () :=
+  fun e he => (validateNodePath_ok_iff e.1).mpr ⟨h e he, hn e he⟩
 
 theorem has_iff (b : Bucket) (p : Str) : has b p = true ↔ ∃ c, (p, c) ∈ b := by
   simp only [has, List.any_eq_true, decide_eq_true_eq]
@@ -97,25 +106,78 @@ theorem walkNodes_ok (H : Bytes → Digest) (b : Bucket)
     simp only [walkNodes, h1, ih (fun x hx => h x (by simp [hx]))]
     rfl
 
+/-- A successful walk means every path passed the repaired `NewFileNode` (in particular none
+    contains a line feed), and its result is `nodesOf`. -/
+theorem walkNodes_eq_ok (H : Bytes → Digest) : ∀ (b : Bucket) (ns : List FileNode),
+    walkNodes H b = .ok ns → (∀ e ∈ b, validateNodePath e.1 = .ok ()) ∧ ns = nodesOf H b
+  | [], ns, h => by
+    simp only [walkNodes, Except.ok.injEq] at h
+    subst h; exact ⟨(by intro e he; cases he), rfl⟩
+  | (p, c) :: rest, ns, h => by
+    simp only [walkNodes] at h
+    cases hn : newFileNode p (H c) with
+    | error e => rw [hn] at h; cases h
+    | ok n =>
+      rw [hn] at h
+      cases hr : walkNodes H rest with
+      | error e => rw [hr] at h; cases h
+      | ok ms =>
+        rw [hr] at h
+        simp only [Except.ok.injEq] at h
+        obtain ⟨ih1, ih2⟩ := walkNodes_eq_ok H rest ms hr
+        obtain ⟨hv, hn'⟩ := newFileNode_eq_ok hn
+        subst h
+        refine ⟨?_, ?_⟩
+        · intro e he
+          rcases List.mem_cons.mp he with rfl | he
+          · exact hv
+          · exact ih1 e he
+        · rw [hn', ih2]; rfl
+
+/-- On a real bucket (bucket-level checks passed) the only way the walk can fail is a line feed
+    in a path, and then it fails with exactly that error whatever the walk order. -/
+theorem walkNodes_err_newline (H : Bytes → Digest) : ∀ (b : Bucket),
+    (∀ e ∈ b, validateNodePathOld e.1 = .ok ()) → ¬ NoNewline b → walkNodes H b = .error .pathLineFeed
+  | [], _, hn => absurd (fun e he => by cases he) hn
+  | (p, c) :: rest, hv, hn => by
+    have hp := validateNodePath_of_old (hv (p, c) (by simp))
+    by_cases hnl : '\n' ∈ p
+    · have : newFileNode p (H c) = .error .pathLineFeed := by
+        unfold newFileNode; rw [hp, if_pos hnl]
+      simp only [walkNodes, this]
+    · have h1 : newFileNode p (H c) = .ok ⟨p, H c⟩ := by
+        unfold newFileNode; rw [hp, if_neg hnl]
+      have hrest : ¬ NoNewline rest := by
+        intro hr
+        apply hn
+        intro e he
+        rcases List.mem_cons.mp he with rfl | he
+        · exact hnl
+        · exact hr e he
+      have ih := walkNodes_err_newline H rest (fun e he => hv e (by simp [he])) hrest
+      simp only [walkNodes, h1, ih]
+
 /-- the manifest of the module files of a bucket -/
 def moduleManifest (H : Bytes → Digest) (raw : Bucket) : Manifest :=
   sortBy pathLe (nodesOf H (filterModule raw))
 
-theorem filesDigest_eq (H : Bytes → Digest) (raw : Bucket) (h : BucketOK raw) :
+theorem filesDigest_eq (H : Bytes → Digest) (raw : Bucket) (h : BucketOK raw)
+    (hn : NoNewline (filterModule raw)) :
     filesDigest H (filterModule raw) = .ok (H (utf8 (manifestString (moduleManifest H raw)))) := by
   have hf := h.filter
   unfold filesDigest
-  rw [filterModule_idem, walkNodes_ok H _ hf.2]
+  rw [filterModule_idem, walkNodes_ok H _ (nodePaths_ok hf.2 hn)]
   show manifestDigest H (nodesOf H (filterModule raw)) = _
   unfold manifestDigest
   rw [newManifest_of_nodup _ (by rw [nodesOf_paths]; exact hf.1)]
   rfl
 
-theorem manifestText_eq (H : Bytes → Digest) (raw : Bucket) (h : BucketOK raw) :
+theorem manifestText_eq (H : Bytes → Digest) (raw : Bucket) (h : BucketOK raw)
+    (hn : NoNewline (filterModule raw)) :
     manifestText H (filterModule raw) = manifestString (moduleManifest H raw) := by
   have hf := h.filter
   unfold manifestText
-  rw [filterModule_idem, walkNodes_ok H _ hf.2]
+  rw [filterModule_idem, walkNodes_ok H _ (nodePaths_ok hf.2 hn)]
   simp only []
   rw [newManifest_of_nodup _ (by rw [nodesOf_paths]; exact hf.1)]
   rfl
@@ -177,20 +239,75 @@ theorem mdigestString_inj {a b : MDigest} (h : mdigestString a = mdigestString b
 theorem digestString_no_newline (d : Digest) : '\n' ∉ digestString d :=
   fun hm => (digestString_plain d _ hm).2 rfl
 
-/-- Closed form of `Module.Digest(b5)` on a well-formed bucket. -/
+/-- Closed form of `Module.Digest(b5)` on a well-formed bucket whose module files have no line
+    feed in their paths. -/
 theorem moduleB5_eq (H : Bytes → Digest) (raw : Bucket) (deps : List MDigest) (h : BucketOK raw)
+    (hn : NoNewline (filterModule raw))
     (hd : deps.all (fun d => d.type = .b5) = true) :
     moduleB5 H raw deps = .ok ⟨.b5, H (utf8 (b5Preimage (H (utf8 (manifestString (moduleManifest H raw))))
       (sortBy strLe (deps.map mdigestString))))⟩ := by
   unfold moduleB5 b5ForDepDigests
-  rw [filesDigest_eq H raw h, depStrings_eq, if_pos hd]
+  rw [filesDigest_eq H raw h hn, depStrings_eq, if_pos hd]
 
 theorem moduleB5_err (H : Bytes → Digest) (raw : Bucket) (deps : List MDigest) (h : BucketOK raw)
+    (hn : NoNewline (filterModule raw))
     (hd : deps.all (fun d => d.type = .b5) = false) :
     moduleB5 H raw deps = .error .depDigestType := by
   unfold moduleB5 b5ForDepDigests
-  rw [filesDigest_eq H raw h, depStrings_eq, hd]
+  rw [filesDigest_eq H raw h hn, depStrings_eq, hd]
   rfl
+
+/-- THE REPAIRED BEHAVIOUR: a module file whose path contains a line feed makes the b5 digest
+    an error (`pathLineFeed`), whatever the dependency digests and the walk order — never a
+    digest over an ambiguous manifest. -/
+theorem moduleB5_newline_err (H : Bytes → Digest) (raw : Bucket) (deps : List MDigest) (h : BucketOK raw)
+    (hn : ¬ NoNewline (filterModule raw)) :
+    moduleB5 H raw deps = .error .pathLineFeed := by
+  have hf := h.filter
+  unfold moduleB5 b5ForDepDigests filesDigest
+  rw [filterModule_idem, walkNodes_err_newline H _ hf.2 hn]
+
+/-- A SUCCESSFUL b5 computation implies that every module file passed the repaired
+    `NewFileNode`; in particular no module-file path contains a line feed.  (No hypothesis on the
+    bucket.) -/
+theorem moduleB5_ok_paths {H : Bytes → Digest} {raw : Bucket} {deps : List MDigest} {d : MDigest}
+    (h : moduleB5 H raw deps = .ok d) : ∀ e ∈ filterModule raw, validateNodePath e.1 = .ok () := by
+  unfold moduleB5 b5ForDepDigests filesDigest at h
+  rw [filterModule_idem] at h
+  cases hw : walkNodes H (filterModule raw) with
+  | error e => rw [hw] at h; cases h
+  | ok ns => exact (walkNodes_eq_ok H _ ns hw).1
+
+theorem moduleB5_ok_noNewline {H : Bytes → Digest} {raw : Bucket} {deps : List MDigest} {d : MDigest}
+    (h : moduleB5 H raw deps = .ok d) : NoNewline (filterModule raw) :=
+  fun e he => validateNodePath_no_newline (moduleB5_ok_paths h e he)
+
+/-- A successful b5 computation implies that every dependency digest is b5. -/
+theorem moduleB5_ok_deps_b5 {H : Bytes → Digest} {raw : Bucket} {deps : List MDigest} {d : MDigest}
+    (h : moduleB5 H raw deps = .ok d) : deps.all (fun d => d.type = .b5) = true := by
+  unfold moduleB5 b5ForDepDigests at h
+  cases hf : filesDigest H (filterModule raw) with
+  | error e => rw [hf] at h; cases h
+  | ok fd =>
+    rw [hf, depStrings_eq] at h
+    cases hd : deps.all (fun d => decide (d.type = .b5)) with
+    | true => rfl
+    | false => rw [hd] at h; cases h
+
+/-! ### the pre-fix computation agrees with the repaired one wherever no line feed occurs -/
+
+theorem oldWalkNodes_eq (H : Bytes → Digest) : ∀ (b : Bucket), NoNewline b →
+    Old.walkNodes H b = walkNodes H b
+  | [], _ => rfl
+  | (p, c) :: rest, hn => by
+    have h1 : newFileNode p (H c) = newFileNodeOld p (H c) := newFileNode_eq_old _ (hn (p, c) (by simp))
+    have ih := oldWalkNodes_eq H rest (fun e he => hn e (by simp [he]))
+    simp only [Old.walkNodes, walkNodes, h1, ih]
+
+theorem oldModuleB5_eq (H : Bytes → Digest) (raw : Bucket) (deps : List MDigest)
+    (hn : NoNewline (filterModule raw)) : Old.moduleB5 H raw deps = moduleB5 H raw deps := by
+  unfold Old.moduleB5 moduleB5 b5ForDepDigests Old.filesDigest filesDigest
+  rw [filterModule_idem, oldWalkNodes_eq H _ hn]
 
 theorem nodup_of_nodup_map {α β : Type} (f : α → β) {l : List α} (h : (l.map f).Nodup) : l.Nodup := by
   induction l with
@@ -306,7 +423,12 @@ theorem moduleB4_eq_ok (H : Bytes → Digest) (raw : Bucket) (yaml lock : Option
       manifestString (sortBy pathLe (nodesOf H (b4Entries raw yaml lock))) := by
   have hf := h.filter
   unfold moduleB4 b4Digest at hd
-  rw [filterModule_idem, walkNodes_ok H _ hf.2] at hd
+  rw [filterModule_idem] at hd
+  have hwv : ∀ e ∈ filterModule raw, validateNodePath e.1 = .ok () := by
+    cases hw : walkNodes H (filterModule raw) with
+    | error e => rw [hw] at hd; cases hd
+    | ok ns => exact (walkNodes_eq_ok H _ ns hw).1
+  rw [walkNodes_ok H _ hwv] at hd
   simp only [] at hd
   cases ho : objectNodes H [yaml, lock] with
   | error e => rw [ho] at hd; cases hd
@@ -332,11 +454,11 @@ theorem moduleB4_eq_ok (H : Bytes → Digest) (raw : Bucket) (yaml lock : Option
         refine ⟨hnd, ?_, ?_, ?_⟩
         · intro e he
           rcases List.mem_append.mp he with he | he
-          · exact hf.2 e he
+          · exact hwv e he
           · exact hv e he
         · rw [← hd, ← hm, hm2]
         · unfold b4ManifestText
-          rw [filterModule_idem, walkNodes_ok H _ hf.2, ho]
+          rw [filterModule_idem, walkNodes_ok H _ hwv, ho]
           simp only []
           rw [hn, hm2]
 
@@ -383,6 +505,10 @@ structure SetOK (ms : List Mod) : Prop where
   bucket : ∀ (i : Nat) (m : Mod), ms[i]? = some m → BucketOK m.bucket ∧ NoNewline (filterModule m.bucket)
   pinned : ∀ (i : Nat) (m : Mod), ms[i]? = some m → m.pinned.all (fun d => d.type = .b5) = true
 
+/-- just the numbering part of `SetOK` -/
+structure SetTopo (ms : List Mod) : Prop where
+  topo : ∀ (i : Nat) (m : Mod), ms[i]? = some m → m.isLocal = true → ∀ j ∈ m.deps, j < i
+
 theorem moduleDigest_fuel_topo (H : Bytes → Digest) (ms : List Mod)
     (htopo : ∀ (i : Nat) (m : Mod), ms[i]? = some m → m.isLocal = true → ∀ j ∈ m.deps, j < i) :
     ∀ i fuel, i < fuel → moduleDigest H ms fuel i = moduleDigest H ms (i + 1) i := by
@@ -408,13 +534,16 @@ theorem moduleDigest_fuel_topo (H : Bytes → Digest) (ms : List Mod)
         simp only [hl']
         rfl
 
-/-- one step of the recursion, in terms of `dg` -/
-theorem dg_unfold (H : Bytes → Digest) (ms : List Mod) (h : SetOK ms) (i : Nat) (m : Mod) (hm : ms[i]? = some m) :
+/-- one step of the recursion, in terms of `dg` (needs the topological numbering only) -/
+theorem dg_unfold_topo (H : Bytes → Digest) (ms : List Mod)
+    (htopo : ∀ (i : Nat) (m : Mod), ms[i]? = some m → m.isLocal = true → ∀ j ∈ m.deps, j < i)
+    (i : Nat) (m : Mod) (hm : ms[i]? = some m) :
     dg H ms i = if m.isLocal then
         (match mapExcept (dg H ms) m.deps with
          | .error e => .error e
          | .ok ds => moduleB5 H m.bucket ds)
       else moduleB5 H m.bucket m.pinned := by
+  have h : SetTopo ms := ⟨htopo⟩
   have hi : i < ms.length := (List.getElem?_eq_some_iff.mp hm).1
   unfold dg
   rw [moduleDigest]
@@ -432,6 +561,28 @@ theorem dg_unfold (H : Bytes → Digest) (ms : List Mod) (h : SetOK ms) (i : Nat
   · have hl' : m.isLocal = false := by simpa using hl
     simp only [hl']
     rfl
+
+theorem dg_unfold (H : Bytes → Digest) (ms : List Mod) (h : SetOK ms) (i : Nat) (m : Mod) (hm : ms[i]? = some m) :
+    dg H ms i = if m.isLocal then
+        (match mapExcept (dg H ms) m.deps with
+         | .error e => .error e
+         | .ok ds => moduleB5 H m.bucket ds)
+      else moduleB5 H m.bucket m.pinned :=
+  dg_unfold_topo H ms h.topo i m hm
+
+theorem mapExcept_error_of_mem {α β ε : Type} (f : α → Except ε β) : ∀ (l : List α) (a : α),
+    a ∈ l → (∃ e, f a = .error e) → ∃ e, mapExcept f l = .error e
+  | [], a, h, _ => by cases h
+  | x :: xs, a, h, ⟨e, he⟩ => by
+    cases hx : f x with
+    | error e' => exact ⟨e', by simp only [mapExcept, hx]⟩
+    | ok b =>
+      have ha : a ∈ xs := by
+        rcases List.mem_cons.mp h with rfl | h
+        · rw [he] at hx; cases hx
+        · exact h
+      obtain ⟨e', he'⟩ := mapExcept_error_of_mem f xs a ha ⟨e, he⟩
+      exact ⟨e', by simp only [mapExcept, hx, he']⟩
 
 /-- every module of a well-formed set has a b5 digest -/
 theorem dg_ok (H : Bytes → Digest) (ms : List Mod) (h : SetOK ms) :
@@ -455,11 +606,11 @@ theorem dg_ok (H : Bytes → Digest) (ms : List Mod) (h : SetOK ms) :
       have hall : (m.deps.map (val H ms)).all (fun d => d.type = .b5) = true := by
         simp only [List.all_eq_true, List.mem_map, decide_eq_true_eq]
         rintro d ⟨j, hj, rfl⟩; exact (hdeps j hj).2
-      rw [moduleB5_eq H m.bucket _ (h.bucket i m hm).1 hall]
+      rw [moduleB5_eq H m.bucket _ (h.bucket i m hm).1 (h.bucket i m hm).2 hall]
       exact ⟨_, rfl, rfl⟩
     · have hl' : m.isLocal = false := by simpa using hl
       simp only [hl', Bool.false_eq_true, if_false]
-      rw [moduleB5_eq H m.bucket _ (h.bucket i m hm).1 (h.pinned i m hm)]
+      rw [moduleB5_eq H m.bucket _ (h.bucket i m hm).1 (h.bucket i m hm).2 (h.pinned i m hm)]
       exact ⟨_, rfl, rfl⟩
 
 theorem dg_eq_val (H : Bytes → Digest) (ms : List Mod) (h : SetOK ms) (i : Nat) (m : Mod) (hm : ms[i]? = some m) :
@@ -499,6 +650,46 @@ theorem withBucket_get_ne (ms : List Mod) (k : Nat) (mk : Mod) (b' : Bucket) {j 
 theorem withBucket_get_self (ms : List Mod) (k : Nat) (mk : Mod) (b' : Bucket) (hk : ms[k]? = some mk) :
     (withBucket ms k mk b')[k]? = some { mk with bucket := b' } :=
   List.getElem?_set_self (List.getElem?_eq_some_iff.mp hk).1
+
+/-- replacing a bucket keeps the numbering -/
+theorem withBucket_topo {ms : List Mod} (k : Nat) (mk : Mod) (b' : Bucket) (hk : ms[k]? = some mk)
+    (htopo : ∀ (i : Nat) (m : Mod), ms[i]? = some m → m.isLocal = true → ∀ j ∈ m.deps, j < i) :
+    ∀ (i : Nat) (m : Mod), (Digest.withBucket ms k mk b')[i]? = some m → m.isLocal = true → ∀ j ∈ m.deps, j < i := by
+  intro i m hm hl j hj
+  by_cases hik : i = k
+  · subst hik
+    rw [withBucket_get_self ms i mk b' hk] at hm
+    simp only [Option.some.injEq] at hm
+    subst hm
+    exact htopo i mk hk hl j hj
+  · rw [withBucket_get_ne ms k mk b' hik] at hm
+    exact htopo i m hm hl j hj
+
+/-- A module whose bucket has a line feed in a module-file path has no digest; nor has any local
+    module that lists it among its (transitively closed) dependencies. -/
+theorem dg_newline_err (H : Bytes → Digest) (ms : List Mod)
+    (htopo : ∀ (i : Nat) (m : Mod), ms[i]? = some m → m.isLocal = true → ∀ j ∈ m.deps, j < i)
+    (k : Nat) (mk : Mod) (hk : ms[k]? = some mk) (hb : BucketOK mk.bucket)
+    (hn : ¬ NoNewline (filterModule mk.bucket)) :
+    (∃ e, dg H ms k = .error e) ∧
+    ∀ (i : Nat) (mi : Mod), ms[i]? = some mi → mi.isLocal = true → k ∈ mi.deps → ∃ e, dg H ms i = .error e := by
+  have hkerr : ∃ e, dg H ms k = .error e := by
+    rw [dg_unfold_topo H ms htopo k mk hk]
+    by_cases hl : mk.isLocal = true
+    · simp only [hl, if_true]
+      cases mapExcept (dg H ms) mk.deps with
+      | error e => exact ⟨e, rfl⟩
+      | ok ds => exact ⟨_, moduleB5_newline_err H mk.bucket ds hb hn⟩
+    · have hl' : mk.isLocal = false := by simpa using hl
+      simp only [hl', Bool.false_eq_true, if_false]
+      exact ⟨_, moduleB5_newline_err H mk.bucket mk.pinned hb hn⟩
+  refine ⟨hkerr, ?_⟩
+  intro i mi hi hil hik
+  rw [dg_unfold_topo H ms htopo i mi hi]
+  simp only [hil, if_true]
+  obtain ⟨e, he⟩ := mapExcept_error_of_mem (dg H ms) mi.deps k hik hkerr
+  rw [he]
+  exact ⟨e, rfl⟩
 
 /-- replacing a bucket by another well-formed one keeps the set well formed -/
 theorem SetOK.withBucket {ms : List Mod} (h : SetOK ms) (k : Nat) (mk : Mod) (b' : Bucket) (hk : ms[k]? = some mk)
